@@ -1,0 +1,103 @@
+//go:build verif
+
+package geom
+
+// Contracts for Intersects / Distance (C09): the point-on-segment kernel over
+// the reals, the linear scans as exact existential statements, the
+// segment/segment distance as the minimum of its four candidates, and the
+// pruning rule of the best-first distance search.
+
+//@ prop C09
+
+// ---- point on closed segment ----
+//@ pred OnSeg(a, b, p) = min(a.X, b.X) <= p.X && p.X <= max(a.X, b.X) && min(a.Y, b.Y) <= p.Y && p.Y <= max(a.Y, b.Y) && (p.X - a.X) * (b.Y - a.Y) == (p.Y - a.Y) * (b.X - a.X)
+
+//@ func line.intersectsXY
+//@   mode real
+//@   ensures result <==> OnSeg(ln.a, ln.b, xy)
+//@   defines result == ufn(onseg, bool, ln, xy)
+
+// OnSeg is exactly { a + t(b-a) : 0 <= t <= 1 } (both directions, witness given)
+//@ lemma onseg_param mode=real: forall a: XY, b: XY, t: float64 :: 0 <= t && t <= 1 ==> mk(line, a, b).intersectsXY(a.Add(b.Sub(a).Scale(t)))
+//@ lemma onseg_witness_x mode=real: forall a: XY, b: XY, p: XY :: mk(line, a, b).intersectsXY(p) && a.X != b.X ==> 0 <= (p.X - a.X) / (b.X - a.X) && (p.X - a.X) / (b.X - a.X) <= 1 && p.Y == a.Y + ((p.X - a.X) / (b.X - a.X)) * (b.Y - a.Y)
+//@ lemma onseg_witness_y mode=real: forall a: XY, b: XY, p: XY :: mk(line, a, b).intersectsXY(p) && a.Y != b.Y ==> 0 <= (p.Y - a.Y) / (b.Y - a.Y) && (p.Y - a.Y) / (b.Y - a.Y) <= 1 && p.X == a.X + ((p.Y - a.Y) / (b.Y - a.Y)) * (b.X - a.X)
+//@ lemma onseg_degenerate mode=real: forall a: XY, p: XY :: mk(line, a, a).intersectsXY(p) <==> (p.X == a.X && p.Y == a.Y)
+
+// ---- segments of a sequence ----
+//@ func getLine
+//@   requires SeqInv(seq) && 0 <= i && i < NPts(seq)
+//@   ensures i == 0 ==> !result1
+//@   ensures i > 0 ==> same(result0, SegOf(seq, i)) && (result1 <==> !SegDegenerate(seq, i))
+//@   defines same(result0, ufn(segof, line, seq, i)) && result1 == ufn(segok, bool, seq, i)
+
+//@ pred SegA(s, k) = mk(XY, s.floats[(k-1)*Dim(s.ctype)], s.floats[(k-1)*Dim(s.ctype)+1])
+//@ pred SegB(s, k) = mk(XY, s.floats[k*Dim(s.ctype)], s.floats[k*Dim(s.ctype)+1])
+//@ pred SegOf(s, k) = mk(line, SegA(s, k), SegB(s, k))
+//@ pred SegDegenerate(s, k) = s.floats[(k-1)*Dim(s.ctype)] == s.floats[k*Dim(s.ctype)] && s.floats[(k-1)*Dim(s.ctype)+1] == s.floats[k*Dim(s.ctype)+1]
+// p lies on the k-th (non-degenerate) segment of s
+//@ pred SegHit(s, k, p) = ufn(segok, bool, s, k) && ufn(onseg, bool, ufn(segof, line, s, k), p)
+//@ pred LSHit(ls, p) = exists k :: 1 <= k && k < NPts(ls.seq) && SegHit(ls.seq, k, p)
+//@ pred MLSHit(m, p) = exists j :: 0 <= j && j < len(m.lines) && LSHit(m.lines[j], p)
+//@ pred XYEq(a, b) = a.X == b.X && a.Y == b.Y
+
+// ---- scans: exact existential statements ----
+//@ func hasIntersectionPointWithPoint
+//@   ensures result <==> pt1.full && pt2.full && XYEq(pt1.coords.XY, pt2.coords.XY)
+
+//@ func hasIntersectionPointWithLineString
+//@   ensures result <==> pt.full && LSHit(ls, pt.coords.XY)
+//@   loop 0 invariant 0 <= i && i <= NPts(seq) && same(seq, ls.seq) && pt.full && same(ptXY, pt.coords.XY)
+//@   loop 0 invariant forall k :: 1 <= k && k < i ==> !SegHit(seq, k, ptXY)
+
+//@ func hasIntersectionPointWithMultiPoint
+//@   ensures result <==> point.full && (exists k :: 0 <= k && k < len(mp.points) && mp.points[k].full && XYEq(point.coords.XY, mp.points[k].coords.XY))
+//@   loop 0 invariant 0 <= i && i <= len(mp.points)
+//@   loop 0 invariant forall k :: 0 <= k && k < i ==> !(point.full && mp.points[k].full && XYEq(point.coords.XY, mp.points[k].coords.XY))
+
+//@ func hasIntersectionPointWithMultiLineString
+//@   ensures result <==> point.full && MLSHit(mls, point.coords.XY)
+//@   loop 0 invariant 0 <= i && i <= n && n == len(mls.lines)
+//@   loop 0 invariant forall j :: 0 <= j && j < i ==> !(point.full && LSHit(mls.lines[j], point.coords.XY))
+
+//@ func hasIntersectionMultiPointWithMultiLineString
+//@   ensures result <==> (exists i :: 0 <= i && i < len(mp.points) && mp.points[i].full && MLSHit(mls, mp.points[i].coords.XY))
+//@   loop 0 invariant 0 <= i && i <= len(mp.points)
+//@   loop 0 invariant forall q :: 0 <= q && q < i ==> !(mp.points[q].full && MLSHit(mls, mp.points[q].coords.XY))
+//@   loop 1 invariant 0 <= j && j <= len(mls.lines) && 0 <= i && i < len(mp.points) && mp.points[i].full && same(ptXY, mp.points[i].coords.XY)
+//@   loop 1 invariant forall q :: 0 <= q && q < j ==> !LSHit(mls.lines[q], ptXY)
+//@   loop 2 invariant 0 <= k && k <= NPts(seq) && 0 <= j && j < len(mls.lines) && same(seq, mls.lines[j].seq) && 0 <= i && i < len(mp.points) && mp.points[i].full && same(ptXY, mp.points[i].coords.XY)
+//@   loop 2 invariant forall q :: 1 <= q && q < k ==> !SegHit(seq, q, ptXY)
+
+// ---- distance kernels ----
+//@ func distBetweenXYAndLine
+//@   mode real
+//@   requires !(ln.a.X == ln.b.X && ln.a.Y == ln.b.Y)
+//@   defines same(result, ufn(dxl, float64, xy, ln))
+
+// segment/segment distance (for non-crossing segments) = min over the four end-point / segment candidates
+//@ pred D1(l1, l2) = ufn(dxl, float64, l1.a, l2)
+//@ pred D2(l1, l2) = ufn(dxl, float64, l1.b, l2)
+//@ pred D3(l1, l2) = ufn(dxl, float64, l2.a, l1)
+//@ pred D4(l1, l2) = ufn(dxl, float64, l2.b, l1)
+//@ func distBetweenLineAndLine
+//@   requires !(ln1.a.X == ln1.b.X && ln1.a.Y == ln1.b.Y) && !(ln2.a.X == ln2.b.X && ln2.a.Y == ln2.b.Y)
+//@   ensures same(result, D1(ln1, ln2)) || same(result, D2(ln1, ln2)) || same(result, D3(ln1, ln2)) || same(result, D4(ln1, ln2))
+//@   ensures !isnan(D1(ln1, ln2)) && !isnan(D2(ln1, ln2)) && !isnan(D3(ln1, ln2)) && !isnan(D4(ln1, ln2)) ==> result <= D1(ln1, ln2) && result <= D2(ln1, ln2) && result <= D3(ln1, ln2) && result <= D4(ln1, ln2)
+//@   loop 0 invariant -1 <= rangeindex && rangeindex < 4 && same(complit[0], D1(ln1, ln2)) && same(complit[1], D2(ln1, ln2)) && same(complit[2], D3(ln1, ln2)) && same(complit[3], D4(ln1, ln2))
+//@   loop 0 invariant rangeindex == -1 ==> isinf(minDist) && minDist > 0
+//@   loop 0 invariant rangeindex >= 0 ==> (exists k :: 0 <= k && k <= rangeindex && same(minDist, complit[k]))
+//@   loop 0 invariant (forall k :: 0 <= k && k <= rangeindex ==> !isnan(complit[k])) ==> (forall k :: 0 <= k && k <= rangeindex ==> minDist <= complit[k])
+
+// ---- Distance: pruning rule of the best-first search ----
+// The search callback may stop the search only when the *bounding box* of the
+// visited record is already farther from the query part than the best
+// distance found so far (records arrive in order of box distance, so nothing
+// later can be closer); stopping on the record's own distance would be wrong.
+//@ pred RecEnv(xs, ls, id) = ite(id > 0, xs[id-1].uncheckedEnvelope(), ls[0-id-1].uncheckedEnvelope())
+//@ func Distance$1
+//@   requires (recordID > 0 && recordID <= len(xys2)) || (recordID < 0 && 0 - recordID <= len(lns2))
+//@   requires EnvOK(env) && xyDist != nil && lnDist != nil
+//@   requires forall k :: 0 <= k && k < len(xys2) ==> XYFin(xys2[k])
+//@   requires forall k :: 0 <= k && k < len(lns2) ==> XYFin(lns2[k].a) && XYFin(lns2[k].b)
+//@   ensures result != nil ==> same(minDist, old(minDist)) && env.nonEmpty && ufn(envdist, float64, RecEnv(xys2, lns2, recordID), env) > old(minDist)
+//@   ensures result == nil ==> !(env.nonEmpty && ufn(envdist, float64, RecEnv(xys2, lns2, recordID), env) > old(minDist))
